@@ -70,3 +70,59 @@ def valid_texts(mdl, texts):
     fs = [enc_s(t) for t in texts]
     outs = lib.run_lines(mdl, ["parse %s 3" % f for f in fs])
     return [t for t, o in zip(texts, outs) if o.startswith("parse 0 ")]
+
+# ------------------------------------------------------------------ histories
+def hist(steps):
+    """steps: list of tuples ('p',k,text) ('a',k,i,j,opt) ('r',k,i,j,mode) ('n',k,mask) ('o',k) ('e',k,i) ('f',k)"""
+    out = []
+    for s in steps:
+        op = s[0]
+        if op == 'p': out.append("p%d=%s" % (s[1], enc_s(s[2]) if isinstance(s[2], str) else s[2]))
+        elif op in ('a', 'r'): out.append("%s%d=%d,%d,%d" % (op, s[1], s[2], s[3], s[4]))
+        elif op == 'n': out.append("n%d=%d" % (s[1], s[2]))
+        elif op == 'e': out.append("e%d=%d" % (s[1], s[2]))
+        else: out.append("%s%d" % (op, s[1]))
+    return "hist " + " ".join(out)
+
+class Obj:
+    """a URI object as printed by the drivers (U line)"""
+    def __init__(self, words):
+        # words: after 'U'
+        self.scheme, self.userInfo, self.hostText, self.ip4, self.ip6, self.ipFuture, self.port = words[0:7]
+        self.abs = words[7]; self.owner = words[8]; n = int(words[9])
+        self.segs = words[10:10 + n]
+        self.query, self.fragment, self.tail = words[10 + n:13 + n]
+        self.nwords = 13 + n
+    def key(self):
+        """component-wise identity (owner flag and tail excluded)"""
+        return (self.scheme, self.userInfo, self.hostText if (self.ip4 == "-" and self.ip6 == "-") else "*", self.ip4, self.ip6,
+                self.ipFuture, self.port, self.abs, tuple(self.segs), self.query, self.fragment)
+    def has_host(self):
+        return not (self.hostText == "-" and self.ip4 == "-" and self.ip6 == "-" and self.ipFuture == "-")
+
+def parse_hist(line):
+    """-> (steps, end) where each step is dict(rc=int, obj=Obj|None, text=field|None, mask=int|None) or dict(eq=0/1) or dict(skip=True)"""
+    parts = line.split(" | ")
+    if parts[0] != "hist": return None, None
+    steps = []
+    for p in parts[1:-1]:
+        w = p.split()
+        if not w: steps.append({"bad": p}); continue
+        if w[0] in ("skip", "freed", "badslot", "badop"): steps.append({"skip": True, "what": w[0]}); continue
+        if w[0].startswith("eq="): steps.append({"eq": int(w[0][3:]), "ro": "!ro" not in p}); continue
+        if "!" in p: steps.append({"bad": p}); continue
+        rc = int(w[0])
+        if rc != 0 or w[1] != "U": steps.append({"rc": rc, "obj": None, "text": None, "mask": None}); continue
+        o = Obj(w[2:])
+        rest = w[2 + o.nwords:]
+        d = {"rc": 0, "obj": o, "text": None, "mask": None}
+        for x in rest:
+            if x.startswith("T="): d["text"] = x[2:]
+            if x.startswith("M="): d["mask"] = int(x[2:])
+        steps.append(d)
+    end = parts[-1].split()
+    e = {"live": None, "bad": None}
+    for x in end:
+        if x.startswith("live="): e["live"] = int(x[5:])
+        if x.startswith("bad="): e["bad"] = int(x[4:])
+    return steps, e
